@@ -36,6 +36,7 @@ def write_replay(pid, rel, o, res, tier):
     doc = {
         "property": pid,
         "failed_obligation": o.get("id"),
+        "other_failed_obligations_of_the_same_clause": o.get("also_failed", []),
         "label": o.get("label"),
         "kind": o.get("kind"),
         "function_spec": rel,
